@@ -156,6 +156,13 @@ Proof. intros Hl Hn. pose proof (len_nonneg l). assert (1 <= len l) by (destruct
   rewrite chunks_cons by (auto; lia). rewrite take_all, drop_all by lia. reflexivity. Qed.
 End Lists.
 
+Lemma In_firstn {A} (x : A) n : forall l, In x (firstn n l) -> In x l.
+Proof. induction n as [|n IH]; intros l H; [contradiction|]. destruct l; [contradiction|]. cbn in H. destruct H; [left|right]; auto. Qed.
+Lemma Forall_firstn {A} (P : A -> Prop) (l : list A) n : Forall P l -> Forall P (firstn n l).
+Proof. intro H. apply Forall_forall. intros x Hx. rewrite Forall_forall in H. apply H. eapply In_firstn; exact Hx. Qed.
+Lemma splice0 {A} (x d : list A) : splice x 0 d = d ++ drop (len d) x.
+Proof. reflexivity. Qed.
+
 (* with offsets: [(off, c1); (off + len c1, c2); ...] *)
 Fixpoint with_offsets {A} (off : Z) (cs : list (list A)) : list (Z * list A) :=
   match cs with [] => [] | c :: r => (off, c) :: with_offsets (off + len c) r end.
